@@ -24,6 +24,8 @@ def main(tier):
     try:
         r = pipeline.mc_run(rep, "Alias", pipeline.write_cfg(tmp, "a.cfg", CFG % ""), label="alias 192 configurations", workers=4)
         pipeline.deviation_runs(rep, "Alias", lambda d: CFG % ('"' + d + '"'), ["shadow_writes_target", "delete_hits_target"])
+        COLL_CFG = "SPECIFICATION Spec\nCONSTANTS\n Dev = {}\n MaxLen = 3\nVIEW View\nPROPERTY PropShadow\nPROPERTY PropLive\nPROPERTY PropPassthrough\nPROPERTY PropItem\nCHECK_DEADLOCK FALSE\n"
+        rc = pipeline.mc_run(rep, "AliasColl", pipeline.write_cfg(tmp, "c.cfg", COLL_CFG), label="collection-typed alias (element helpers)", workers=4)
         rep.mark("mc")
         cfgs = [json.loads(c) for c in sorted({common.canon(s["cfg"]) for s in r["states"]})]
         if len(cfgs) != 192:
@@ -32,6 +34,9 @@ def main(tier):
         L = 4 if thorough else 3
         nr, rl = (300, 10) if thorough else (100, 8)
         jobs = [([c], acts, L, nr, rl, common.seed() + i) for i, c in enumerate(cfgs)]
+        ccfgs = [json.loads(c) for c in sorted({common.canon(s["cfg"]) for s in rc["states"]})]
+        cacts = sorted(rc["acts"], key=common.canon)
+        jobs += [([c], cacts, 4 if thorough else 3, nr, rl, common.seed() + 1000 + i) for i, c in enumerate(ccfgs)]
         events = []
         for o in pipeline.pmap(D.run, jobs):
             events += o
